@@ -50,19 +50,96 @@ SCOPE_PREFIXES = ("core/mdo_functions/", "algos/aggregation/")
 SCOPE_FILES = ("disciplines/constraint_aggregation.py",)
 
 
+def _fresh_result(method: ast.AST, pos: int | None) -> bool:
+    """Every ``return`` of ``method`` hands out (as element ``pos`` of the tuple it returns; None: as the value it
+    returns) an array that shares its storage with no parameter and no attribute of ``self``: decided by the may-alias
+    analysis of rule 10.1 itself, which is asked whether an in-place write on the returned value could reach one."""
+    import copy
+
+    m = copy.deepcopy(method)
+    probes: list[ast.stmt] = []
+    ok = [True]
+
+    class T(ast.NodeTransformer):
+        def visit_FunctionDef(self, n):  # noqa: N802
+            return n if n is not m else self.generic_visit(n)
+
+        visit_AsyncFunctionDef = visit_FunctionDef  # noqa: N815
+
+        def visit_Lambda(self, n):  # noqa: N802
+            return n
+
+        def visit_Return(self, n):  # noqa: N802
+            v = n.value
+            if pos is not None:
+                v = v.elts[pos] if isinstance(v, ast.Tuple) and pos < len(v.elts) and not any(isinstance(x, ast.Starred) for x in v.elts) else None
+            if v is None:
+                ok[0] = False
+                return n
+            bind = ast.Assign(targets=[ast.Name(id="_gv_returned", ctx=ast.Store())], value=v)
+            probe = ast.AugAssign(target=ast.Name(id="_gv_returned", ctx=ast.Store()), op=ast.Add(), value=ast.Constant(value=0))
+            probes.append(probe)
+            return [ast.copy_location(x, n) for x in (bind, probe, ast.Return(value=None))]
+
+    T().visit(m)
+    ast.fix_missing_locations(m)
+    if not ok[0] or not probes or any(isinstance(n, (ast.Yield, ast.YieldFrom)) for n in walk_body(m)):
+        return False
+    a = m.args
+    params = {x.arg for x in [*a.posonlyargs, *a.args, *a.kwonlyargs, *([a.vararg] if a.vararg else []), *([a.kwarg] if a.kwarg else [])] if x.arg not in ("self", "cls")}
+    res, _ = impure_writes(m, params, track_state=True)
+    ids = {id(p) for p in probes}
+    return not any(id(node) in ids for node, _, _ in res)
+
+
+def _unknown_is_fresh(func: ast.AST, node: ast.AST, methods: dict) -> bool:
+    """The written local of the in-place statement ``node``, of which the alias analysis knows nothing because it comes
+    out of a call (``a, b = self.m(...)``: unpacked), is in fact a fresh array: EVERY binding of that local in ``func``
+    is such a call of a method of the same class whose returned element is fresh (:func:`_fresh_result`), or an
+    in-place update of the local itself.  Anything else (a loop target, an inherited method, a function) is not."""
+    if isinstance(node, ast.AugAssign) and isinstance(node.target, ast.Name):
+        name = node.target.id
+    else:
+        return False
+    bound = 0
+    n_stores = sum(1 for x in ast.walk(func) if isinstance(x, ast.Name) and isinstance(x.ctx, (ast.Store, ast.Del)) and x.id == name)
+    if name in {a.arg for a in ast.walk(func) if isinstance(a, ast.arg)}:
+        return False
+    for st in stmts_of(func):
+        if isinstance(st, ast.AugAssign) and isinstance(st.target, ast.Name) and st.target.id == name:
+            bound += 1
+        elif isinstance(st, ast.Assign) and len(st.targets) == 1:
+            t, v = st.targets[0], st.value
+            if isinstance(t, ast.Name) and t.id == name:
+                pos = None
+            elif isinstance(t, ast.Tuple) and sum(1 for x in t.elts if isinstance(x, ast.Name) and x.id == name) == 1 and not any(isinstance(x, ast.Starred) for x in t.elts):
+                pos = next(i for i, x in enumerate(t.elts) if isinstance(x, ast.Name) and x.id == name)
+            else:
+                continue
+            callee = methods.get(v.func.attr) if isinstance(v, ast.Call) and isinstance(v.func, ast.Attribute) and isinstance(v.func.value, ast.Name) and v.func.value.id == "self" else None
+            if callee is None or callee is func or not _fresh_result(callee, pos):
+                return False
+            bound += 1
+    # every store of the name is one of the bindings understood above
+    return bound == n_stores
+
+
 def check_purity(ctx: Ctx) -> None:
     n_funcs = n_sites = 0
     for rel, mod in sorted(ctx.index.modules.items()):
         if not (rel.startswith(SCOPE_PREFIXES) or rel in SCOPE_FILES):
             continue
 
-        def visit(node, owner):
+        def visit(node, owner, methods):
             nonlocal n_funcs, n_sites
             for ch in ast.iter_child_nodes(node):
                 if isinstance(ch, ast.ClassDef):
-                    visit(ch, ch.name)
+                    visit(ch, ch.name, {m.name: m for m in ch.body if isinstance(m, FUNC_TYPES)})
                 elif isinstance(ch, FUNC_TYPES):
                     res, sites = impure_writes(ch, track_state=True)
+                    # "?": a value the analysis knows nothing about (unpacked from a call); a method of the same class
+                    # that returns a fresh array there is looked into
+                    res = [(n_, p, w) for n_, p, w in res if not (p == "?" and methods and _unknown_is_fresh(ch, n_, methods))]
                     n_funcs += 1
                     n_sites += sites
                     con = cname(rel, owner, ch.name)
@@ -71,9 +148,9 @@ def check_purity(ctx: Ctx) -> None:
                         ctx.ob("10.1-purity", con, False, f"{ch.name}: {what}: evaluating the function changes its operand (a second evaluation, or the operand's own value, is then wrong)", node=node_, stmt=f"{norm_stmt(node_, 70)} [{p}]")
                     if sites and not res:
                         ctx.ob("10.1-purity", con, True, "no in-place write reaches a parameter", stmt=f"{sites} in-place site(s) examined", node=ch)
-                    visit(ch, owner)
+                    visit(ch, owner, methods)
 
-        visit(mod.tree, None)
+        visit(mod.tree, None, {})
     ctx.counts["10.1-functions"] = n_funcs
     ctx.counts["10.1-sites"] = n_sites
     ctx.extra["purity_functions_analysed"] = n_funcs
@@ -88,6 +165,140 @@ def check_purity(ctx: Ctx) -> None:
     ctx.need(not res, "purity rule self-check failed (fancy-indexed copy reported)")
 
 
+def _unqualified(sa, e: ast.Call, env):
+    """``numpy.f(...)`` typed as ``f(...)`` is (the shape analysis models some functions under their bare name only)."""
+    f = e.func
+    if isinstance(f, ast.Attribute) and dotted(f.value) in ("numpy", "np"):
+        e.func = ast.copy_location(ast.Name(id=f.attr, ctx=ast.Load()), f)
+        try:
+            return sa._call(e, env)
+        finally:
+            e.func = f
+    return None
+
+
+def _rank_value(e: ast.AST, rank_of):
+    """The value of an expression over the NUMBERS OF DIMENSIONS of arrays (``ndim(a)``, ``a.ndim``, ``len(a.shape)``,
+    ``len(shape(a))``), integer constants, comparisons, boolean connectives, sets / tuples of those and their length,
+    min / max / abs and + - *; ``rank_of(a)`` is the number of dimensions of ``a`` or None.  Returns (value, whether a
+    number of dimensions was read); value None: not such an expression, or a rank is not known.
+    """
+    used = [False]
+
+    class Unknown(Exception):
+        pass
+
+    def np_name(c, names):
+        f = c.func
+        return last_attr(c) in names and (isinstance(f, ast.Name) or (isinstance(f, ast.Attribute) and dotted(f.value) in ("numpy", "np")))
+
+    def rank(x):
+        r = rank_of(x)
+        if r is None:
+            raise Unknown
+        used[0] = True
+        return r
+
+    def go(x):
+        if isinstance(x, ast.Constant) and isinstance(x.value, (bool, int)):
+            return x.value
+        if isinstance(x, ast.Attribute) and x.attr == "ndim":
+            return rank(x.value)
+        if isinstance(x, ast.Call) and not x.keywords and not any(isinstance(a, ast.Starred) for a in x.args):
+            if np_name(x, ("ndim",)) and len(x.args) == 1:
+                return rank(x.args[0])
+            if dotted(x.func) == "len" and len(x.args) == 1:
+                a = x.args[0]
+                if isinstance(a, ast.Attribute) and a.attr == "shape":
+                    return rank(a.value)
+                if isinstance(a, ast.Call) and np_name(a, ("shape",)) and len(a.args) == 1 and not a.keywords:
+                    return rank(a.args[0])
+                if isinstance(a, (ast.Set, ast.Tuple, ast.List)):
+                    return len(go(a))
+            if dotted(x.func) in ("min", "max") and x.args:
+                vals = go(x.args[0]) if len(x.args) == 1 else [go(a) for a in x.args]
+                if not vals or not all(isinstance(v, int) for v in vals):
+                    raise Unknown
+                return (min if dotted(x.func) == "min" else max)(vals)
+            if dotted(x.func) == "abs" and len(x.args) == 1:
+                v = go(x.args[0])
+                if isinstance(v, int):
+                    return abs(v)
+            raise Unknown
+        if isinstance(x, (ast.Set, ast.Tuple, ast.List)) and not any(isinstance(a, ast.Starred) for a in x.elts):
+            vals = [go(a) for a in x.elts]
+            return frozenset(vals) if isinstance(x, ast.Set) else tuple(vals)
+        if isinstance(x, ast.UnaryOp) and isinstance(x.op, ast.Not):
+            return not go(x.operand)
+        if isinstance(x, ast.UnaryOp) and isinstance(x.op, ast.USub):
+            v = go(x.operand)
+            if isinstance(v, int):
+                return -v
+            raise Unknown
+        if isinstance(x, ast.BoolOp):
+            vals = [go(v) for v in x.values]
+            return all(vals) if isinstance(x.op, ast.And) else any(vals)
+        if isinstance(x, ast.BinOp) and isinstance(x.op, (ast.Add, ast.Sub, ast.Mult)):
+            a, b = go(x.left), go(x.right)
+            if isinstance(a, int) and isinstance(b, int):
+                return a + b if isinstance(x.op, ast.Add) else (a - b if isinstance(x.op, ast.Sub) else a * b)
+            raise Unknown
+        if isinstance(x, ast.Compare):
+            vals = [go(x.left), *[go(c) for c in x.comparators]]
+            for op, a, b in zip(x.ops, vals, vals[1:]):
+                if isinstance(op, (ast.Eq, ast.NotEq)):
+                    r = (a == b) == isinstance(op, ast.Eq)
+                elif isinstance(op, (ast.In, ast.NotIn)) and isinstance(b, (tuple, frozenset)):
+                    r = (a in b) == isinstance(op, ast.In)
+                elif isinstance(op, (ast.Lt, ast.LtE, ast.Gt, ast.GtE)) and type(a) in (int, bool) and type(b) in (int, bool):
+                    r = {ast.Lt: a < b, ast.LtE: a <= b, ast.Gt: a > b, ast.GtE: a >= b}[type(op)]
+                else:
+                    raise Unknown
+                if not r:
+                    return False
+            return True
+        raise Unknown
+
+    try:
+        v = go(e)
+    except Unknown:
+        return None, used[0]
+    return v, used[0]
+
+
+def _decide_rank_tests(g: ast.AST, analyse):
+    """``g`` (a private copy) with every condition that only reads numbers of dimensions known to the shape analysis
+    replaced by its outcome, and its shape analysis.  The values are those at the condition (flow-sensitive): a
+    condition is decided only where each array it asks about has ONE possible list of axes there; deciding a condition
+    makes the values after it definite, so the analysis is repeated until nothing more is decided.
+    """
+    import copy
+
+    for _ in range(12):
+        sa = analyse(g)
+
+        def rank_of(x, _sa=sa):
+            if not _sa.cfg.has(x):
+                return None
+            v = _sa.value(x)
+            if v is None:
+                return None
+            return len(v[1]) if v[0] == "arr" else (0 if v[0] == "scalar" else None)
+
+        changed = False
+        for n_ in ast.walk(g):
+            if isinstance(n_, (ast.If, ast.IfExp)) and not isinstance(n_.test, ast.Constant):
+                v, used = _rank_value(n_.test, rank_of)
+                if used and isinstance(v, bool):
+                    n_.test = ast.copy_location(ast.Constant(value=v), n_.test)
+                    changed = True
+        if not changed:
+            return g, sa
+        # the control-flow graph is cached by function object: a changed function is a new object
+        g = copy.deepcopy(g)
+    return g, analyse(g)
+
+
 def _maker_hooks():
     def extra_call(sa, e, env):
         name = last_attr(e)
@@ -99,7 +310,7 @@ def _maker_hooks():
             return sa._binop(e, sa.evaluate(e.args[0], env), sa.evaluate(e.args[1], env), ast.Mult())
         if name == "isinstance":
             return one(("scalar",))
-        return None
+        return _unqualified(sa, e, env)
 
     def attr_hook(sa, e, env):
         if dotted(e) == "self._second_operand":
@@ -171,11 +382,9 @@ def check_shapes(ctx: Ctx) -> None:
 
         # function x function: the second operand is a function, not a number, whichever flag the code tests
         g = _spec(f, {"self._second_operand_is_number": False, "self._second_operand_is_func": True})
-        # the branch taken when exactly one of the two Jacobians is 1-D
-        for n_ in ast.walk(g):
-            if isinstance(n_, ast.If) and "ndim" in norm_stmt(n_.test) and isinstance(n_.test, ast.Compare):
-                n_.test = ast.copy_location(ast.Constant(value=isinstance(n_.test.ops[0], ast.NotEq)), n_.test)
-        sa = ShapeAnalysis(g, {}, extra_call=mixed_call, attr_hook=attr_hook)
+        # the branches taken when exactly one of the two Jacobians is 1-D: the conditions on the numbers of dimensions
+        # are evaluated with the numbers of dimensions the arrays have there
+        g, sa = _decide_rank_tests(g, lambda g_, _mc=mixed_call: ShapeAnalysis(g_, {}, extra_call=_mc, attr_hook=attr_hook))
         cg = _cfg_of(g)
         label = "scalar x vector" if first_scalar else "vector x scalar"
         msgs = sorted({m_ for _, m_ in sa.problems})
@@ -577,6 +786,14 @@ def _scaling_of(func: ast.AST, values: str = "orig_val", factor: str = "scale") 
             inner = e.func.value if isinstance(e.func, ast.Attribute) and not e.args else (e.args[0] if len(e.args) == 1 else None)
             t = ev(inner, env) if inner is not None else other
             return t if t & (val | {_SCALE}) else other
+        if isinstance(e, ast.IfExp):
+            # ``v if c else v[indices]``: what either branch may hold (a constant test selects its branch)
+            if isinstance(e.test, ast.Constant):
+                return ev(e.body if e.test.value else e.orelse, env)
+            t = ev(e.body, env) | ev(e.orelse, env)
+            return t if t & (val | {_SCALE}) else other
+        if isinstance(e, ast.NamedExpr):
+            return ev(e.value, env)
         ops = two_operands(e)
         if ops:
             a, b = ev(ops[0], env), ev(ops[1], env)
@@ -702,17 +919,70 @@ def check_aggregation(ctx: Ctx) -> None:
     ctx.floor("10.4-scaling", 20)
 
 
+# parameters of the numpy functions that build a point from another one, in positional order
+_NUMPY_PARAMS = {
+    "insert": ("arr", "obj", "values", "axis"),
+    "delete": ("arr", "obj", "axis"),
+    "append": ("arr", "values", "axis"),
+    "where": ("condition", "x", "y"),
+    "take": ("a", "indices", "axis"),
+    "compress": ("condition", "a", "axis"),
+    "dot": ("a", "b"),
+    "matmul": ("x1", "x2"),
+    "multiply": ("x1", "x2"),
+    "add": ("x1", "x2"),
+    "subtract": ("x1", "x2"),
+    "divide": ("x1", "x2"),
+    "concatenate": ("arrays", "axis"),
+    "hstack": ("tup",),
+    "vstack": ("tup",),
+    "asarray": ("a", "dtype"),
+    "array": ("object", "dtype"),
+    "atleast_1d": ("arys",),
+    "atleast_2d": ("arys",),
+    "full": ("shape", "fill_value", "dtype"),
+    "clip": ("a", "a_min", "a_max"),
+}
+
+
 def _canon_point(text: str, param: str) -> str:
-    """One spelling for the point at which a wrapped function is evaluated: the method's own parameter is ``_x`` and a
-    matrix product is ``a @ b`` however it is written (``a.dot(b)``, ``dot(a, b)``, ``matmul(a, b)``)."""
+    """One spelling for the point at which a wrapped function is evaluated: the method's own parameter is ``_x``, a
+    matrix product is ``a @ b`` however it is written (``a.dot(b)``, ``dot(a, b)``, ``matmul(a, b)``), a numpy function
+    is called by its bare name with its arguments in positional order (``numpy.insert(a, i, values=v)`` is
+    ``insert(a, i, v)``), ``(name := e)`` is ``e``, ``a[i,]`` is ``a[i]`` and a selection on a negated mask is the
+    selection on the mask with its branches exchanged (``where(~c, a, b)`` is ``where(c, b, a)``)."""
     import re
 
+    def numpy_call(n):
+        return isinstance(n.func, ast.Name) or (isinstance(n.func, ast.Attribute) and dotted(n.func.value) in ("numpy", "np"))
+
     class T(ast.NodeTransformer):
+        def visit_NamedExpr(self, n):  # noqa: N802
+            return self.visit(n.value)
+
+        def visit_Subscript(self, n):  # noqa: N802
+            self.generic_visit(n)
+            if isinstance(n.slice, ast.Tuple) and len(n.slice.elts) == 1 and not isinstance(n.slice.elts[0], ast.Starred):
+                n.slice = n.slice.elts[0]
+            return n
+
         def visit_Call(self, n):  # noqa: N802
             self.generic_visit(n)
+            name = last_attr(n)
+            if name in _NUMPY_PARAMS and numpy_call(n) and not any(isinstance(a, ast.Starred) for a in n.args) and all(k.arg for k in n.keywords):
+                n.func = ast.Name(id=name, ctx=ast.Load())
+                params = _NUMPY_PARAMS[name]
+                by_name = {k.arg: k for k in n.keywords}
+                while len(n.args) < len(params) and params[len(n.args)] in by_name:
+                    n.args.append(by_name.pop(params[len(n.args)]).value)
+                n.keywords = sorted(by_name.values(), key=lambda k: k.arg)
+            if name == "where" and numpy_call(n) and len(n.args) == 3 and not n.keywords:
+                c = n.args[0]
+                neg = c.operand if isinstance(c, ast.UnaryOp) and isinstance(c.op, ast.Invert) else (c.args[0] if isinstance(c, ast.Call) and last_attr(c) in ("logical_not", "invert", "bitwise_not") and len(c.args) == 1 and not c.keywords and numpy_call(c) else None)
+                if neg is not None:
+                    n.args = [neg, n.args[2], n.args[1]]
             if n.keywords:
                 return n
-            name = last_attr(n)
             if name == "dot" and len(n.args) == 1 and isinstance(n.func, ast.Attribute) and dotted(n.func.value) not in ("numpy", "np"):
                 return ast.BinOp(left=n.func.value, op=ast.MatMult(), right=n.args[0])
             if name in ("dot", "matmul") and len(n.args) == 2 and (isinstance(n.func, ast.Name) or dotted(n.func.value) in ("numpy", "np")):
